@@ -139,8 +139,10 @@ def build_driver(name, build, sources=None, extra=(), cxx=False, libs=("-lcgreen
 # ------------------------------------------------------------------------------------------
 def gen_facts():
     """Run the translator: /repo sources -> coq/Gen/*.v (write-if-changed)."""
-    import srcfacts
-    return srcfacts.generate(REPO, os.path.join(COQ, "Gen"), os.path.join(COQ, "Pinned"))
+    import srcfacts, srccode
+    st = srcfacts.generate(REPO, os.path.join(COQ, "Gen"), os.path.join(COQ, "Pinned"))
+    st.update(srccode.generate(REPO, os.path.join(COQ, "Gen"), os.path.join(COQ, "Pinned")))
+    return st
 
 
 def coq_make(targets=None, timeout=1500):
